@@ -156,7 +156,22 @@ def strategy(tier):
                           trees=trees, pol=pol, delay_set=DELAYS)
     roles = kgen.programs_roles([WORKER, DRIVER, WAITER, WAITER, DRIVER], max_instrs=5, max_start=7 if big else 6,
                                 max_nev=3, min_nev=1, min_start=3, trees=trees, pol=pol, delay_set=[0, 1, 1, 2, 0.5])
-    return kgen.weighted([(roles, 2), (mixed, 1)])
+    def late(t):
+        """conditions built over operands that are all processed already, one of them failed (and handled at the time) - in every
+        position of the operand list"""
+        mode, order, extra, d = t
+        ops = [["ev", 0], ["ev", 1], ["ev", 2]]
+        ops = [ops[i] for i in order]
+        if extra:
+            ops.append(["to", d, "late"])
+        tree = [mode, ops] if mode in ("all", "any") else [mode, [mode, ops[0], ops[1]], ops[2]]
+        return {"init": 0, "nev": 3, "start": [1, 1, 1, 0, 2],
+                "bodies": [[["succeed", 1, "one"], ["fail", 0, ["ValueError", ["zero"]]], ["succeed", 2, 2]],
+                           [["wait", 0, "continue", "continue"]],
+                           [["timeout", 1, None, "continue", "continue"], ["wait_cond", tree, "continue", "continue"]]]}
+    fam = st.tuples(st.sampled_from(["all", "all", "any", "and", "or"]), st.permutations([0, 1, 2]), st.booleans(),
+                    st.sampled_from([0, 1])).map(late)
+    return kgen.weighted([(roles, 4), (mixed, 2), (fam, 1)])
 
 
 # ---- foreign-environment facet
